@@ -182,3 +182,7 @@ impl<I: Clone, O: Clone, C: WorkCoalescingCore<I, O>> WorkCoalescingQueue<I, O, 
         self.core.into_inner().unwrap()
     }
 }
+
+#[cfg(any(kani, rescrv_blue_verif))]
+#[path = "/verif/hk/sync42/work_coalescing_queue.rs"]
+mod verif_harness;
